@@ -7,6 +7,7 @@ from .. import fortran_ctypes as FC
 from .. import grammar as G
 from .. import reference as R
 from .. import solvecheck as SC
+from ..represent import Rep
 from ..util import attempt
 
 import fsic
@@ -242,6 +243,7 @@ def check_case(case):
                 f[nm] = np.asarray(p[nm]).copy()
             f.status = np.asarray(p.status).copy()
             f.iterations = np.asarray(p.iterations).copy()
+        rep = Rep(run.get('rep'))       # the Fortran-backed twin receives the same values as NumPy scalars etc.
         detail = f'{text!r} entry={entry} t={t} n={n} {SC.opts_text(opts)} bases={run.get("bases")}'
         if not all(np.all(np.isfinite(np.asarray(p[nm]))) for nm in names):
             # the preparatory solves left a NaN/inf behind: the statement covers finite data only (Python's min/max and
@@ -250,11 +252,11 @@ def check_case(case):
             continue
         if entry == 'evaluate':
             a = R.quiet_call(attempt, p._evaluate, t)
-            b = R.quiet_call(attempt, f._evaluate, t)
+            b = R.quiet_call(attempt, f._evaluate, rep.int(t))
             tol = 0.0 if dyadic else OPS_TOL * ops
         elif entry == 'solve_t':
             a = R.quiet_call(attempt, p.solve_t, t, **opts)
-            b = R.quiet_call(attempt, f.solve_t, t, **opts)
+            b = R.quiet_call(attempt, f.solve_t, rep.int(t), **rep.opts(opts))
             tol = 0.0 if dyadic else ITER_TOL
         else:
             skw = dict(opts)
@@ -262,7 +264,7 @@ def check_case(case):
                 # an explicit request to start (or end) the run at a period that cannot accommodate the lags/leads
                 skw['start' if T < L else 'end'] = T
             a = R.quiet_call(attempt, p.solve, **skw)
-            b = R.quiet_call(attempt, f.solve, **skw)
+            b = R.quiet_call(attempt, f.solve, **rep.opts(skw))
             tol = 0.0 if dyadic else ITER_TOL
         # the statement covers data for which values stay finite: skip runs in which the Python twin met a numerical error
         if not all(np.all(np.isfinite(np.asarray(p[nm]))) for nm in names) or \
@@ -397,6 +399,7 @@ def runs_strategy():
         'tpos': st.integers(0, 3), 'negative': st.booleans(), 'extra': st.integers(0, 3), 'opts': opts,
         'presolve': st.sampled_from([False, False, True]), 'infeasible': st.sampled_from([None, None, None, 'front', 'back']),
         'recheck': st.sampled_from([None, None, None, 0, 1]), 'oob': st.sampled_from([None, None, None, None, 0, 1]),
+        'rep': st.one_of(st.just([]), st.lists(st.integers(0, 11), min_size=1, max_size=4)),
         'bases': st.lists(st.lists(st.sampled_from([1.0, 2.0, 0.5, 4.0, 3.0, 0.25, 1.5]), min_size=2, max_size=4), min_size=1, max_size=3),
     })
     return st.lists(run, min_size=3, max_size=6)
